@@ -8,8 +8,6 @@ import (
 	"math/big"
 	"sort"
 	"strings"
-
-	vmcommon "github.com/ElrondNetwork/elrond-vm-common"
 )
 
 type Mismatch struct {
@@ -239,7 +237,7 @@ func (m *Model) WellFormed(w *World, shard int) []Clause {
 					seen[string(r)] = true
 				}
 				tok := k[len(pfxRole):]
-				if seen[vmcommon.ESDTRoleNFTCreate] {
+				if seen[refESDTRoleNFTCreate] {
 					var counter uint64
 					if cv, ok := a.Storage[pfxNonce+tok]; ok {
 						counter = low64(cv)
